@@ -239,6 +239,39 @@ func runC10(w *World, r *Report) {
 	}
 
 	// ---- handler isolation
+	// ---- InitCallbacks starts a unit of its own: it never lets the enclosing unit's manager shine through
+	r.Rule("C10.init-detaches", "InitCallbacks installs a manager (or nil) into the context on every path: it never returns the incoming context unchanged", 1)
+	{
+		ic := w.Fn("internal/callbacks", "InitCallbacks")
+		cwm := w.Fn("internal/callbacks", "ctxWithManager")
+		nret, bad := 0, ""
+		instrs(ic, func(in ssa.Instruction) {
+			ret, ok := in.(*ssa.Return)
+			if !ok {
+				return
+			}
+			nret++
+			v := returnedValue(ret, 0)
+			if c, ok := v.(*ssa.Call); ok && isCallTo(c, cwm) {
+				return
+			}
+			if ph, ok := v.(*ssa.Phi); ok {
+				all := true
+				for _, e := range ph.Edges {
+					if c, ok := e.(*ssa.Call); !ok || !isCallTo(c, cwm) {
+						all = false
+					}
+				}
+				if all {
+					return
+				}
+			}
+			bad = w.pos(ret.Pos())
+		})
+		r.Check(nret > 0 && bad == "", "C10.init-detaches", "InitCallbacks returns ctxWithManager(…) on every path", ic.Pos(), fmt.Sprintf("%d returns, each the result of ctxWithManager", nret),
+			"InitCallbacks can return a context that still carries the enclosing unit's manager (return at "+bad+"): a helper component started inside a node with no handlers of its own reports its start/end to the enclosing node's handlers, under the enclosing node's RunInfo — those handlers fire twice per timing")
+	}
+
 	r.Rule("C10.handler-isolation", "no in-place append on callbacks.manager handler slices (shared through the context by all nodes of a run)", 0)
 	owners := map[*types.Named]bool{w.Named("internal/callbacks", "manager"): true, w.Named("compose", "Option"): true}
 	ruleAppendAlias(w, r, "C10.handler-isolation", owners, w.RepoFuncs("internal/callbacks", "callbacks", "compose"), map[*ssa.Function]bool{})
